@@ -226,10 +226,6 @@ theorem limits_exact (m : VLog) (k : Bytes) (v : Option Bytes) (ops : List Nat) 
 
 /-! ## checkpoints -/
 
-/-- calls that never revert to a checkpoint older than `cp` -/
-def NoRevertBelow (cp : Nat) (ops : List Op) : Prop :=
-  ∀ op ∈ ops, match op with | .revert c => cp ≤ c | _ => True
-
 /-- FULL-STRENGTH statement for checkpoints (what the property text asks for): take a checkpoint, run any calls that do not
     pop the stages that were open at the checkpoint and do not revert below it, revert to the checkpoint — every key reads
     as it did at the checkpoint.  This is FALSE of the mechanism (`revert_restores_view_false`): a same-length overwrite
